@@ -140,8 +140,10 @@ Lemma same_ap_refl : forall h, same_ap h h.
 Proof. split; reflexivity. Qed.
 Lemma same_ap_trans : forall h1 h2 h3, same_ap h1 h2 -> same_ap h2 h3 -> same_ap h1 h3.
 Proof. intros h1 h2 h3 [A1 A2] [B1 B2]. split; congruence. Qed.
-Lemma sess_get_ap : forall h na, same_ap (fst (sess_get h na)) h.
-Proof. intros h na. unfold sess_get. destruct (alist_get na (sessions h)); split; reflexivity. Qed.
+Lemma sess_get_ap : forall c h na, same_ap (fst (sess_get c h na)) h.
+Proof. intros c h na. destruct (sess_get_frame c h na) as (A & _ & B & _). split; assumption. Qed.
+Lemma remove_expired_sessions_ap : forall c s, same_ap (hs (remove_expired_sessions c s)) (hs s).
+Proof. intros c s. destruct (remove_expired_sessions_frame c s) as (A & _ & B & _). split; assumption. Qed.
 Lemma sess_put_ap : forall h na se, same_ap (sess_put h na se) h.
 Proof. split; reflexivity. Qed.
 Lemma sess_insert_ap : forall c h na se, same_ap (sess_insert c h na se) h.
@@ -160,12 +162,12 @@ Proof.
   destruct (d_pk (dr s)) as [|[[[x1 x2] x3] x4] r]; cbn; auto.
 Qed.
 
-Lemma is_awaiting_session_st : forall s na,
-  same_ap (hs (fst (is_awaiting_session s na))) (hs s) /\ outs (fst (is_awaiting_session s na)) = outs s
-  /\ dr (fst (is_awaiting_session s na)) = dr s.
+Lemma is_awaiting_session_st : forall c s na,
+  same_ap (hs (fst (is_awaiting_session c s na))) (hs s) /\ outs (fst (is_awaiting_session c s na)) = outs s
+  /\ dr (fst (is_awaiting_session c s na)) = dr s.
 Proof.
-  intros s na. unfold is_awaiting_session. pose proof (sess_get_ap (hs s) na) as H.
-  destruct (sess_get (hs s) na) as [h se]. cbn [fst] in H. destruct se; cbn [fst with_hs hs outs dr]; auto.
+  intros c s na. unfold is_awaiting_session. pose proof (sess_get_ap c (hs s) na) as H.
+  destruct (sess_get c (hs s) na) as [h se]. cbn [fst] in H. destruct se; cbn [fst with_hs hs outs dr]; auto.
 Qed.
 
 (* effect of the ActiveRequests operations on occ *)
@@ -290,6 +292,13 @@ Lemma Le_of_same : forall s s', same_ap (hs s') (hs s) -> outs s' = outs s -> d_
 Proof.
   intros s s' H1 H2 H3. apply Le_intro; [exact H3|]. intros x. unfold live. rewrite (occ_same x _ _ H1), H2. lia.
 Qed.
+Lemma Le_remove_expired_sessions : forall c s, Le s (remove_expired_sessions c s).
+Proof.
+  intros c s. apply Le_intro; [rewrite remove_expired_sessions_dr; reflexivity|]. intros x. unfold live.
+  rewrite (occ_same x _ _ (remove_expired_sessions_ap c s)).
+  destruct (remove_expired_sessions_outs c s) as [E|[ks E]]; rewrite E; [lia|].
+  rewrite men_app. cbn [men about]. lia.
+Qed.
 Lemma LeX_ar_insert : forall c s na r now, LeX (eqn (rc_rid r)) s (with_hs s (ar_insert c (hs s) na r now)).
 Proof.
   intros c s na r now. split; [reflexivity|]. intros x. unfold live. cbn [with_hs hs outs].
@@ -308,16 +317,16 @@ Proof.
   intros c s ct ext rid body now. unfold send_request.
   destruct (existsb (N.eqb (c_addr ct)) (cfg_listen c)); [apply Le_refl|].
   assert (H1 : Le s (fst (if has_challenge (hs s) (c_naddr ct) then (s, true)
-                          else is_awaiting_session s (c_naddr ct)))).
+                          else is_awaiting_session c s (c_naddr ct)))).
   { destruct (has_challenge (hs s) (c_naddr ct)); [apply Le_refl|].
-    destruct (is_awaiting_session_st s (c_naddr ct)) as (A & B & C). apply Le_of_same; congruence. }
-  destruct (if has_challenge (hs s) (c_naddr ct) then (s, true) else is_awaiting_session s (c_naddr ct))
+    destruct (is_awaiting_session_st c s (c_naddr ct)) as (A & B & C). apply Le_of_same; congruence. }
+  destruct (if has_challenge (hs s) (c_naddr ct) then (s, true) else is_awaiting_session c s (c_naddr ct))
     as [s1 aw]. cbn [fst] in H1.
   destruct aw; cbn [fst snd].
   - eapply Le_LeX_trans; [exact H1|].
     apply (LeX_push_pending s1 (c_naddr ct) {| pq_contact := ct; pq_ext := ext; pq_rid := rid; pq_body := body |}).
-  - pose proof (sess_get_ap (hs s1) (c_naddr ct)) as H4.
-    destruct (sess_get (hs s1) (c_naddr ct)) as [h2 se]. cbn [fst] in H4.
+  - pose proof (sess_get_ap c (hs s1) (c_naddr ct)) as H4.
+    destruct (sess_get c (hs s1) (c_naddr ct)) as [h2 se]. cbn [fst] in H4.
     assert (H2 : Le s (with_hs s1 h2)) by (eapply Le_trans; [exact H1|apply Le_with_hs; exact H4]).
     destruct se as [se|].
     + pose proof (encrypt_message_st c (with_hs s1 h2) (c_naddr ct) se (MReq rid body)) as H5.
@@ -400,8 +409,10 @@ Qed.
 Lemma fail_session_live : forall c s na err rm, Le s (fail_session c s na err rm).
 Proof.
   intros c s na err rm. unfold fail_session.
-  set (s1 := if rm then with_hs s (sess_remove (hs s) na) else s).
-  assert (H1 : Le s s1). { subst s1. destruct rm; [apply Le_with_hs, sess_remove_ap|apply Le_refl]. }
+  set (s1 := if rm then let s0 := remove_expired_sessions c s in with_hs s0 (sess_remove (hs s0) na) else s).
+  assert (H1 : Le s s1).
+  { subst s1. destruct rm; [|apply Le_refl]. cbv zeta.
+    eapply Le_trans; [apply Le_remove_expired_sessions|apply Le_with_hs, sess_remove_ap]. }
   clearbody s1.
   set (s2 := match alist_get na (pending (hs s1)) with Some l => _ | None => s1 end).
   assert (H2 : Le s1 s2).
@@ -428,8 +439,8 @@ Qed.
 Lemma replay_active_requests_live : forall c s na skip now, Le s (replay_active_requests c s na skip now).
 Proof.
   intros c s na skip now. unfold replay_active_requests.
-  pose proof (sess_get_ap (hs s) na) as H1.
-  destruct (sess_get (hs s) na) as [h1 se]. cbn [fst] in H1. destruct se as [se0|]; [|apply Le_refl].
+  pose proof (sess_get_ap c (hs s) na) as H1.
+  destruct (sess_get c (hs s) na) as [h1 se]. cbn [fst] in H1. destruct se as [se0|]; [|apply Le_with_hs; exact H1].
   match goal with |- context [fold_left ?f ?l (with_hs s h1, se0, [])] =>
     assert (X : Le s (fst (fst (fold_left f l (with_hs s h1, se0, []))))) end.
   { apply (fold_left_inv (fun acc : st * session * list (nonce * packet) => Le s (fst (fst acc)))).
@@ -451,8 +462,9 @@ Qed.
 Lemma new_session_live : forall c s na se skip now, Le s (new_session c s na se skip now).
 Proof.
   intros c s na se skip now. unfold new_session.
-  pose proof (sess_get_ap (hs s) na) as H1.
-  destruct (sess_get (hs s) na) as [h1 cur]. cbn [fst] in H1.
+  eapply Le_trans; [apply (Le_remove_expired_sessions c)|]. generalize (remove_expired_sessions c s). clear s. intros s.
+  pose proof (sess_get_ap c (hs s) na) as H1.
+  destruct (sess_get c (hs s) na) as [h1 cur]. cbn [fst] in H1.
   destruct cur as [cs|].
   - match goal with |- context [replay_active_requests c ?s1 na skip now] =>
       assert (X : Le s (replay_active_requests c s1 na skip now)) end.
@@ -479,8 +491,8 @@ Qed.
 Lemma send_response_live : forall c s na rid rb, Le s (send_response c s na rid rb).
 Proof.
   intros c s na rid rb. unfold send_response.
-  pose proof (sess_get_ap (hs s) na) as H1.
-  destruct (sess_get (hs s) na) as [h1 se]. cbn [fst] in H1. destruct se as [se|]; [|apply Le_refl].
+  pose proof (sess_get_ap c (hs s) na) as H1.
+  destruct (sess_get c (hs s) na) as [h1 se]. cbn [fst] in H1. destruct se as [se|]; [|apply Le_with_hs; exact H1].
   pose proof (encrypt_message_st c (with_hs s h1) na se (MResp rid rb)) as Y.
   destruct (encrypt_message c (with_hs s h1) na se (MResp rid rb)) as [[s2 se'] p].
   cbn [fst] in Y. destruct Y as (Y1 & Y2 & Y3).
@@ -570,9 +582,10 @@ Lemma handle_message_live : forall c s na n aad ct now,
   Resp (fun x => live x s) (handle_message c s na n aad ct now).
 Proof.
   intros c s na n aad ct now. unfold handle_message.
-  pose proof (sess_get_ap (hs s) na) as H1.
-  destruct (sess_get (hs s) na) as [h1 se]. cbn [fst] in H1.
-  destruct se as [se|]; [|apply Resp_of_Le, Le_emit_other; reflexivity].
+  pose proof (sess_get_ap c (hs s) na) as H1.
+  destruct (sess_get c (hs s) na) as [h1 se]. cbn [fst] in H1.
+  destruct se as [se|].
+  2:{ apply Resp_of_Le. eapply Le_trans; [apply Le_with_hs; exact H1|]. apply Le_emit_other; reflexivity. }
   destruct (decrypt_message se n aad ct) as [se' m].
   set (s2 := with_hs (with_hs s h1) (sess_put (hs (with_hs s h1)) na se')).
   assert (H2 : Le s s2).
@@ -650,7 +663,7 @@ Proof.
   { unfold live. cbn [with_hs hs outs]. rewrite occ_ar_insert. lia. }
   assert (L1 : live x (with_hs s h1) + eqn (rc_rid r) x = live x s).
   { unfold live. cbn [with_hs hs outs]. lia. }
-  destruct (rc_hs_sent r).
+  destruct (rc_hs_sent r || c_ed (rc_contact r)).
   { match goal with |- context [fail_request c ?s2 r _ _] =>
       assert (L2 : Le (with_hs s h1) s2) by (destruct (fix_d6 c); [apply Le_remove_expected|apply Le_refl]);
       pose proof (fail_request_live c s2 r ERR_INVALID_REMOTE_PACKET true) as [_ L3] end.
@@ -727,9 +740,9 @@ Proof.
   assert (FR : forall d, Le s (match group_of d (nmap (hs s)) with
       | _ :: _ :: _ =>
         let (rev_order, d') := pop_rev (dr s) in
-        fire_group c {| hs := hs s; dr := d'; outs := outs s |}
+        fire_group (with_clock c (fire_time c d now)) {| hs := hs s; dr := d'; outs := outs s |}
           (if rev_order then rev (group_of d (nmap (hs s))) else group_of d (nmap (hs s))) d (fire_time c d now)
-      | _ => fire_group c s (group_of d (nmap (hs s))) d (fire_time c d now)
+      | _ => fire_group (with_clock c (fire_time c d now)) s (group_of d (nmap (hs s))) d (fire_time c d now)
       end)).
   { intros d. destruct (group_of d (nmap (hs s))) as [|x [|y g]]; try apply fire_group_live.
     assert (X : Le s {| hs := hs s; dr := snd (pop_rev (dr s)); outs := outs s |}).
@@ -1081,7 +1094,7 @@ Qed.
 Lemma tagged_false_held : forall h' o x, In (x, false) (tagged h' o) -> 1 <= occ x h'.
 Proof.
   intros h' o x H. unfold tagged in H. apply in_flat_map in H. destruct H as (ev & _ & H).
-  destruct ev as [[| |na rid rb| | |]|]; cbn [about] in H; try contradiction; destruct H as [H|[]].
+  destruct ev as [[| |na rid rb| | | |]|]; cbn [about] in H; try contradiction; destruct H as [H|[]].
   - injection H as H1 H2. subst rid. cbn [is_terminal] in H2. destruct (occ x h'); [discriminate|lia].
   - injection H as H1 H2. discriminate.
 Qed.
